@@ -85,4 +85,9 @@ inst("remove_num","NameSet::remove(int pnum) -> remove(const DataKey& p_key) the
   [{"name":"wrong_name","slice":"NameSet_removeKey.inc","find":"hashtab.remove(Name(&mem[set[p_key]]));","replace":"hashtab.remove(Name(&mem[set[0]]));"},
    {"name":"wrong_key","slice":"NameSet_removeNum.inc","find":"remove(key(pnum));","replace":"remove(key(num() - 1));"}],
   defines={"INST_remove":"","HOW":"1"}, harness="h_remove", enforce="w_remove")
+EXPECTED_S={'lookup': 18, 'add': 20, 'add_nokey': 17, 'add_lookup': 60, 'remove_name': 22, 'remove_num': 31}
+THOROUGH_ONLY=[]
+for _i in u["instances"]:
+    if _i["name"] in EXPECTED_S: _i["expected_s"]=EXPECTED_S[_i["name"]]
+    if _i["name"] in THOROUGH_ONLY: _i["tier"]="thorough"
 json.dump(u, open(os.path.join(os.path.dirname(os.path.abspath(__file__)), "unit.json"), "w"), indent=1)
